@@ -312,9 +312,42 @@ def func_outs(prog, fmt, rg, vsi, rng, pen=True):
     return outs
 
 
+WIDTH_OP_NAMES = ("hstem", "hstemhm", "vstem", "vstemhm", "cntrmask", "hintmask", "hmoveto", "vmoveto", "rmoveto",
+                  "endchar")
+
+
+def p2c_reports_width(prog, fmt, rg):
+    """Observation used only to LABEL a rejection with its root cause (never a verdict): does the real
+    programToCommands report a width command ("", [w]) in front of the first stack-clearing operator
+    of this CFF2 program?  (CFF2 charstrings have no width, so on a well-formed one it never should.)
+    Counted as: more ""-commands in front of that operator than the one implicit-vstem group a mask
+    operator with operands directly in front of it accounts for."""
+    if fmt != "cff2":
+        return 0
+    from fontTools.cffLib import specializer as sp
+
+    try:
+        cmds = sp.programToCommands(list(prog), lambda vi: rg[vi])
+    except Exception:
+        return 0
+    j = next((i for i, c in enumerate(cmds) if c[0] in WIDTH_OP_NAMES), None)
+    i = next((i for i, t in enumerate(prog) if isinstance(t, str) and t in WIDTH_OP_NAMES), None)
+    if j is None or i is None or prog[i] != cmds[j][0]:
+        return 0
+    expected = 0
+    if prog[i] in ("hintmask", "cntrmask") and i > 0 and (_isnum(prog[i - 1]) or prog[i - 1] == "blend"):
+        expected = 1
+    return 1 if sum(1 for c in cmds[:j] if c[0] == "") > expected else 0
+
+
 def func_trace(prog, fmt, rg, vsi, rng, meta, pen=True):
-    tr = {"in": mk_side(fmt, prog, rg=rg, vsi=vsi, dw=FUNC_DW, nw=FUNC_NW),
-          "outs": func_outs(prog, fmt, rg, vsi, rng, pen=pen), "meta": meta}
+    outs = func_outs(prog, fmt, rg, vsi, rng, pen=pen)
+    meta = dict(meta)
+    if fmt == "cff2":
+        # root-cause labelling data: [original, generalised program (fed to "respecialize")]
+        g = next((o["p"] for o in outs if o["t"] == "generalize" and not o["raised"]), None)
+        meta["p2cw"] = [p2c_reports_width(prog, fmt, rg), p2c_reports_width(g, fmt, rg) if g is not None else 0]
+    tr = {"in": mk_side(fmt, prog, rg=rg, vsi=vsi, dw=FUNC_DW, nw=FUNC_NW), "outs": outs, "meta": meta}
     return tr
 
 
@@ -482,9 +515,10 @@ def font_rewrites(data, want=None, with_subr=True, orig=None):
     run("recompile", recompile)
     def both_to_cff(src):
         run("cff2-to-cff", to_cff(src, False))
-        if isinstance(rew.get("cff2-to-cff"), IndexError):
-            # known defect candidate (lazy Private DICT read after setCFF2(False) loses local subrs):
-            # keep the rest of the conversion under test with the Private DICTs pre-loaded
+        if isinstance(rew.get("cff2-to-cff"), Exception):
+            # controlled experiment: the same conversion with every Private DICT read while the font is
+            # still CFF2.  It keeps the rest of the conversion under test, and a failure that goes away
+            # with it is the lazy-Private-read defect (root_cause), any other failure keeps its own key
             run("cff2-to-cff-pre", to_cff(src, True))
 
     if tag == "CFF ":
@@ -1053,21 +1087,51 @@ def blends_before_first_clear(tokens):
     return n
 
 
+P2C_REWRITINGS = ("commands", "generalize", "specialize", "respecialize")   # the ones that parse with programToCommands
+
+
+def _out(t, name):
+    return next((o for o in t["outs"] if o[0] == name), None)
+
+
+def _raised(o):
+    return bool(len(o) > 5 and o[10])
+
+
 def root_cause(t, clause):
+    """stable key of a KNOWN root cause for a rejected clause, or None (then the clause names itself).
+    Labelling only: each condition is the observable signature of one defect (see findings/C12), so
+    that an unrelated failure of the same rewriting keeps its own clause key."""
     name = clause.split(":")[0]
+    # (2) convertCFF2ToCFF raises IndexError on a callsubr, and the identical conversion with the Private
+    #     DICTs read before setCFF2(False) goes through
     if clause == "cff2-to-cff:Raised" and "IndexError" in t.get("exc", {}).get(name, ""):
-        return "CFF2ToCFF:local-subrs-lost-when-Private-is-read-after-setCFF2(False)"
-    if clause == "cff-to-cff2:Legal:Arity:leftover" and not (set(t["progs"][0][1]) & WIDTH_OPS):
-        return "CFFToCFF2:width-kept-when-only-stack-clearing-operator-is-in-a-subroutine"
-    if t["progs"][0][0] != "cff2":
+        pre = _out(t, "cff2-to-cff-pre")
+        if pre is not None and not _raised(pre):
+            return "CFF2ToCFF:local-subrs-lost-when-Private-is-read-after-setCFF2(False)"
         return None
-    fed = t["progs"][0][1]
-    if name == "respecialize":
-        for o in t["outs"]:
-            if o[0] == "generalize" and not (len(o) > 5 and o[10]):
-                fed = t["progs"][o[1] - 1][1]
-    if blends_before_first_clear(fed) >= 2:
-        return "programToCommands:cff2-width-miscount-after-several-blends"
+    # (3) CFF->CFF2 leaves an operand behind, and the only stack-clearing operator the original executes
+    #     is an endchar inside a subroutine (nothing at top level, nothing but endchar in its subroutines)
+    if clause == "cff-to-cff2:Legal:Arity:leftover":
+        o = t["progs"][0]
+        sub_ops = set()
+        for _i, q in list(o[2]) + list(o[4]):
+            sub_ops |= set(q) & WIDTH_OPS
+        if not (set(o[1]) & WIDTH_OPS) and sub_ops == {OPCODE["endchar"]}:
+            return "CFFToCFF2:width-kept-when-only-stack-clearing-operator-is-in-a-subroutine"
+        return None
+    # (1) programToCommands reports a width on a CFF2 program with several blends in front of the first
+    #     stack-clearing operator (observed on the program that was fed to the rewriting)
+    flags = t.get("meta", {}).get("p2cw")
+    if flags and t["progs"][0][0] == "cff2" and re.sub(r"-topo|-max\d+", "", name) in P2C_REWRITINGS:
+        fed, flag = t["progs"][0][1], flags[0]
+        if name == "respecialize":
+            g = _out(t, "generalize")
+            if g is None or _raised(g):
+                return None
+            fed, flag = t["progs"][g[1] - 1][1], flags[1]
+        if flag and blends_before_first_clear(fed) >= 2:
+            return "programToCommands:cff2-width-miscount-after-several-blends"
     return None
 
 
